@@ -92,6 +92,7 @@ pub struct ScopeGen<'a> {
     pub model: Model,
     next_value: i32,
     next_body: u32,
+    next_int: u16,
 }
 
 impl<'a> ScopeGen<'a> {
@@ -102,6 +103,7 @@ impl<'a> ScopeGen<'a> {
             model: Model::new(year, day),
             next_value: 100,
             next_body: 1,
+            next_int: 0,
         }
     }
 
@@ -318,7 +320,21 @@ impl<'a> ScopeGen<'a> {
             "regdef" => {
                 let t = self.target();
                 let g = self.g();
-                if self.rng.chance(2, 3) {
+                if self.rng.chance(1, 4) {
+                    self.next_int += 1;
+                    let id = self.next_int;
+                    let mut ops = vec![Op::NewInt { t, id }];
+                    // usually give it a value straight away, so that a later loss shows
+                    if self.rng.chance(3, 4) {
+                        self.next_value += 1;
+                        ops.push(Op::SetViaAlias {
+                            g: false,
+                            t,
+                            v: self.next_value,
+                        });
+                    }
+                    ops
+                } else if self.rng.chance(2, 3) {
                     let idx = self.reg_idx(RegKind::Count);
                     vec![Op::CountDef { g, t, idx }]
                 } else {
